@@ -490,6 +490,11 @@ def run_large(rec, quick, only=None):
         text = mk_input(n)
         probe = probes.RuleEvalProbe(g)
         probe.start()
+        # the budget of the non-termination check is a constant meant for small cases; a parse that must
+        # visit every position of a long input legitimately takes rules x length steps (false alarm of the
+        # first thorough run: 4e5 lines needed more than 5e6 function starts)
+        old_budget = observe.STEP_BUDGET
+        observe.STEP_BUDGET = max(old_budget, 40 * nrules * (len(text) + 1))
         try:
             o = observe.observe(g, text)
             rec.case()
@@ -501,6 +506,7 @@ def run_large(rec, quick, only=None):
             check_calls(rec, probe, nrules, len(text), case, 'large')
             rec.maxi('largest_memo_keys_in_one_call', rec.counters.get('distinct_rule_pos_keys', 0) - before)
         finally:
+            observe.STEP_BUDGET = old_budget
             probe.stop()
         del o
 
